@@ -97,6 +97,24 @@ func c09Sequence(ev *vlib.Evidence, driver string, hosts []*vlib.Identity, seq [
 			}
 			sh.last[h.NodeID] = c
 			trace = append(trace, fmt.Sprintf("host%d registers again on conn#%d", hi, c.ID))
+		case 'Y':
+			// this host registers over the OTHER host's newest open connection (two identities on one socket)
+			if len(hosts) < 2 {
+				return false
+			}
+			oh := hosts[1-hi]
+			open := sh.open(oh.NodeID)
+			if len(open) == 0 {
+				return false
+			}
+			c := open[len(open)-1]
+			var resp pool.ConnectResponse
+			if err := w.Signed(c.AgentSide, h, h.NodeID, "vipnode_connect", &resp, vlib.ConnectReq(true, "geth", "", "")); err != nil {
+				ev.Violate("register-second-identity-failed", map[string]interface{}{"err": err.Error(), "sequence": seq})
+				return true
+			}
+			sh.last[h.NodeID] = c
+			trace = append(trace, fmt.Sprintf("host%d registers on conn#%d (opened by host%d)", hi, c.ID, 1-hi))
 		case 'O', 'N':
 			open := sh.open(h.NodeID)
 			if len(open) == 0 {
@@ -117,10 +135,29 @@ func c09Sequence(ev *vlib.Evidence, driver string, hosts []*vlib.Identity, seq [
 		stamp := w.Tick()
 		var resp pool.PeerResponse
 		perr := w.Signed(pc.AgentSide, probe, probe.NodeID, "vipnode_peer", &resp, pool.PeerRequest{Num: 5})
-		called := map[string][]int{}
+		// which connections were called (a connection may carry several identities: one call per identity)
+		calledConns := map[int]int{}
 		for _, ce := range w.EventsSince(stamp) {
 			if ce.Method == "whitelist" {
-				called[ce.Host] = append(called[ce.Host], ce.ConnID)
+				calledConns[ce.ConnID]++
+			}
+		}
+		wantConns := map[int]int{}
+		for _, h2 := range hosts {
+			if live := sh.latestLive(h2.NodeID); live != nil {
+				wantConns[live.ID]++
+			}
+		}
+		called := map[string][]int{}
+		for _, h2 := range hosts {
+			if live := sh.latestLive(h2.NodeID); live != nil && calledConns[live.ID] > 0 {
+				called[h2.NodeID] = []int{live.ID}
+			}
+		}
+		for id, n := range calledConns {
+			if wantConns[id] != n {
+				ev.Violate("connection-call-count", map[string]interface{}{"sequence": seq, "trace": trace, "conn": id, "calls": n, "expected": wantConns[id], "probe_err": fmt.Sprint(perr)})
+				return true
 			}
 		}
 		wantLive := 0
@@ -434,7 +471,7 @@ func c09Binary(ev *vlib.Evidence) {
 
 func TestC09(t *testing.T) {
 	ev := vlib.NewEvidence("C09", "exploration",
-		"exhaustive enumeration of event sequences (connect on a new connection / register again on the newest open connection / register again on the oldest open connection / close oldest open / close newest open, per host) up to a length bound over 1 and 2 hosts, with a probe peer request after every event: the connection object receiving vipnode_whitelist and NumRemotes are compared with a shadow registry (host -> most recently registered connection, live iff open); connections are closed the way server.go does (serve loop ends, then CloseRemote); a black-box pass against the built `vipnode pool` binary where fake hosts register over WebSocket and then close politely (close frame), abruptly or with going-away, after which a peer request must not attempt to call them (the only place server.go's disconnect callback is exercised); plus racing rounds where closes/reconnects overlap in-flight peer requests (registry vs shadow at quiescence, no call on a connection for a request started after its close); non-trivial = sequence contains a close or a reconnect; distinct = distinct sequences")
+		"exhaustive enumeration of event sequences (connect on a new connection / register again on the newest open connection / register again on the oldest open connection / register over the other host's connection (two identities on one socket) / close oldest open / close newest open, per host) up to a length bound over 1 and 2 hosts, with a probe peer request after every event: the connection object receiving vipnode_whitelist and NumRemotes are compared with a shadow registry (host -> most recently registered connection, live iff open); connections are closed the way server.go does (serve loop ends, then CloseRemote); a black-box pass against the built `vipnode pool` binary where fake hosts register over WebSocket and then close politely (close frame), abruptly or with going-away, after which a peer request must not attempt to call them (the only place server.go's disconnect callback is exercised); plus racing rounds where closes/reconnects overlap in-flight peer requests (registry vs shadow at quiescence, no call on a connection for a request started after its close); non-trivial = sequence contains a close or a reconnect; distinct = distinct sequences")
 	hosts := []*vlib.Identity{vlib.NewIdentity("c09host", 0), vlib.NewIdentity("c09host", 1)}
 	driver := vlib.DriverMemory
 	len1, len2 := vlib.Scale(5, 6), vlib.Scale(3, 4)
@@ -464,7 +501,7 @@ func TestC09(t *testing.T) {
 		total += len(seqs)
 	}
 	run([]string{"0C", "0O", "0N", "0S", "0R"}, len1)
-	run([]string{"0C", "0O", "0N", "0S", "0R", "1C", "1O", "1N", "1S", "1R"}, len2)
+	run([]string{"0C", "0O", "0N", "0S", "0R", "1C", "1O", "1N", "1S", "1R", "0Y", "1Y"}, len2)
 	ev.Note("enumerated_sequences_including_invalid", total)
 	ev.Note("bounds", fmt.Sprintf("1 host: length<=%d; 2 hosts: length<=%d", len1, len2))
 	ev.Exhaustive()
